@@ -122,9 +122,10 @@ Variable H : Type.
 Variable hash : string -> H.
 Variable verify : H -> string -> bool.
 Variable empty_hash : H.
+Variable norm : string -> string.          (* the 72 key bytes bcrypt derives from a password *)
 (* bcrypt: a stored hash verifies exactly the password it was made from, and
    the empty hash of a user stored without a password verifies nothing *)
-Hypothesis verify_hash : forall p p', verify (hash p) p' = true <-> p = p'.
+Hypothesis verify_hash : forall p p', verify (hash p) p' = true <-> norm p = norm p'.
 Hypothesis verify_empty : forall p, verify empty_hash p = false.
 
 Local Notation step' := (step hash verify empty_hash).
@@ -212,7 +213,7 @@ Proof.
     { intros h fpa. destruct (store_mut fpa) as [[|] fp2]; intros X; injection X as <- <- <-; [|exact I].
       constructor; cbn; [|apply (inv_sess s I)|apply (inv_reg s I)].
       intros k u X. apply alookup_ainsert_some in X as [[-> ->]|[_ X]]; [reflexivity|now apply (inv_users s I)]. }
-    destruct pw; [now apply K in E|].
+    destruct pw as [p|]; [destruct (max_password_len <? slen p); [injection E as <- <- <-; exact I|now apply K in E]|].
     destruct (store_get (users s) n fp) as [[old| |] fp1]; [now apply K in E|now apply K in E|].
     injection E as <- <- <-. exact I.
   - unfold del_user in E. destruct (store_mut fp) as [[|] fp1]; injection E as <- <- <-; [|exact I].
@@ -221,7 +222,8 @@ Proof.
   - unfold get_user in E. repeat dmh E; injection E as <- <- <-; exact I.
   - unfold list_keys in E. repeat dmh E; injection E as <- <- <-; exact I.
   - (* PutService *)
-    unfold put_service in E. destruct (store_get (services s) id fp) as [g fp1].
+    unfold put_service in E. destruct (select_md b) as [md|]; [|injection E as <- <- <-; exact I].
+    unfold put_service_md in E. destruct (store_get (services s) id fp) as [g fp1].
     assert (forall reg1, (forall e m, alookup e reg1 = Some m -> md_entity m = e) ->
               forall e m, alookup e (ainsert (md_entity md) md reg1) = Some m -> md_entity m = e) as K.
     { intros reg1 Hr e m X. apply alookup_ainsert_some in X as [[-> ->]|[_ X]]; [reflexivity|now apply Hr]. }
@@ -303,7 +305,7 @@ Theorem step_assertion s o fp s' rs fp' r a :
   authenticated s o a /\ registered s o a /\ exists n, fp' = skipn n fp /\ clean n fp.
 Proof.
   intros I E Hr Hb. destruct o; cbn [step] in E;
-    try (unfold put_user, del_user, get_user, list_keys, put_service, del_service, put_shortcut, del_shortcut,
+    try (unfold put_user, del_user, get_user, list_keys, put_service, put_service_md, del_service, put_shortcut, del_shortcut,
                 get_sess, del_session in E; repeat dmh E; injection E as <- <- <-;
          repeat (destruct Hr as [<-|Hr]; [cbn in Hb; discriminate|]); destruct Hr).
   - (* Login never carries an assertion *)
@@ -344,7 +346,7 @@ Qed.
 Theorem step_one_reply s o fp : List.length (snd (fst (step' s o fp))) = if is_request o then 1%nat else 0%nat.
 Proof.
   destruct o; cbn [step is_request];
-    unfold put_user, del_user, get_user, list_keys, put_service, del_service, put_shortcut, del_shortcut,
+    unfold put_user, del_user, get_user, list_keys, put_service, put_service_md, del_service, put_shortcut, del_shortcut,
            login, sso, launch, get_sess, del_session; repeat dm; reflexivity.
 Qed.
 
@@ -352,8 +354,8 @@ Qed.
 Theorem step_no_hash s o fp r u :
   In r (snd (fst (step' s o fp))) -> r_body r = BUser u -> u_hash u = empty_hash.
 Proof.
-  destruct o as [n pw pr|n|n|cl|id md|id|n sp|n|c|rq c|n c|id|id|dt|]; cbn [step].
-  1-8,12-15: unfold put_user, del_user, get_user, list_keys, put_service, del_service, put_shortcut, del_shortcut,
+  destruct o as [n pw pr|n|n|cl|id b|id|n sp|n|c|rq c|n c|id|id|dt|]; cbn [step].
+  1-8,12-15: unfold put_user, del_user, get_user, list_keys, put_service, put_service_md, del_service, put_shortcut, del_shortcut,
            get_sess, del_session; repeat dm; cbn; intros Hr Hb;
            repeat (destruct Hr as [<-|Hr]; [cbn in Hb; try discriminate|]); try destruct Hr;
            try (injection Hb as <-; reflexivity).
@@ -410,7 +412,7 @@ Lemma step_log s o fp s' rs fp' x :
   step' s o fp = (s', rs, fp') -> In x (authlog s') -> In x (authlog s) \/ pw_auth_at s o (fst x) (snd x).
 Proof.
   intros E Hx. destruct o; cbn [step] in E;
-    try (unfold put_user, del_user, get_user, list_keys, put_service, del_service, put_shortcut, del_shortcut,
+    try (unfold put_user, del_user, get_user, list_keys, put_service, put_service_md, del_service, put_shortcut, del_shortcut,
                 get_sess, del_session in E; repeat dmh E; injection E as <- <- <-; left; exact Hx).
   - unfold login in E. destruct (get_session verify s true c fp) as [[s1 r] fp1] eqn:G.
     assert (s' = s1) as -> by (destruct r as [rep|[se ck]]; now injection E as <- <- <-).
@@ -523,7 +525,7 @@ Proof.
     - apply get_session_inl in G as [-> _]. congruence.
     - apply get_session_inr in G as [(_ & _ & u & _ & _ & _ & _ & -> & _)|(_ & i & _ & _ & _ & _ & -> & _)]; [now apply (K u)|congruence]. }
   destruct o; cbn [step] in E;
-    try (unfold put_user, del_user, get_user, list_keys, put_service, del_service, put_shortcut, del_shortcut, get_sess in E;
+    try (unfold put_user, del_user, get_user, list_keys, put_service, put_service_md, del_service, put_shortcut, del_shortcut, get_sess in E;
          repeat dmh E; injection E as <- <- <-; cbn in L'; congruence).
   - unfold login in E. destruct (get_session verify s true c fp) as [[s1 r] fp1] eqn:G.
     assert (s' = s1) as -> by (destruct r as [rep|[sx ck]]; now injection E as <- <- <-). eapply KG; eassumption.
@@ -560,7 +562,7 @@ Proof.
   intros I E.
   assert (forall parsed c fpa s1 r fp1, get_session verify s parsed c fpa = (s1, r, fp1) -> hash_origin s1) as KG.
   { intros parsed c fpa s1 r fp1 G n u L. apply get_session_users in G as (G & _). rewrite G in L. now apply (I n). }
-  destruct o as [n pw pr|n|n|cl|id md|id|n sp|n|c|rq c|n c|id|id|dt|]; cbn [step] in E.
+  destruct o as [n pw pr|n|n|cl|id b|id|n sp|n|c|rq c|n c|id|id|dt|]; cbn [step] in E.
   - unfold put_user in E.
     assert (forall h fpa, (h = empty_hash \/ exists p, h = hash p) ->
               (let '(ok, fp2) := store_mut fpa in
@@ -568,7 +570,7 @@ Proof.
                else (s, [rerr 500], fp2)) = (s', rs, fp') -> hash_origin s') as K.
     { intros h fpa Hh. destruct (store_mut fpa) as [[|] fp2]; intros X; injection X as <- <- <-; [|exact I].
       intros k u X. cbn in X. apply alookup_ainsert_some in X as [[-> ->]|[_ X]]; [exact Hh|now apply (I k)]. }
-    destruct pw as [p|]; [apply (K (hash p) fp); [right; eauto|exact E]|].
+    destruct pw as [p|]; [destruct (max_password_len <? slen p); [injection E as <- <- <-; exact I|apply (K (hash p) fp); [right; eauto|exact E]]|].
     destruct (store_get (users s) n fp) as [[old| |] fp1] eqn:G.
     + apply (K (u_hash old) fp1); [|exact E]. apply store_get_ok in G as (L & _). now apply (I n).
     + apply (K empty_hash fp1); [now left|exact E].
@@ -577,7 +579,7 @@ Proof.
     intros k u X. cbn in X. apply alookup_aremove_some in X as [X _]. now apply (I k).
   - unfold get_user in E. repeat dmh E; injection E as <- <- <-; exact I.
   - unfold list_keys in E. repeat dmh E; injection E as <- <- <-; exact I.
-  - unfold put_service in E. repeat dmh E; injection E as <- <- <-; exact I.
+  - unfold put_service, put_service_md in E. repeat dmh E; injection E as <- <- <-; exact I.
   - unfold del_service in E. repeat dmh E; injection E as <- <- <-; exact I.
   - unfold put_shortcut in E. repeat dmh E; injection E as <- <- <-; exact I.
   - unfold del_shortcut in E. repeat dmh E; injection E as <- <- <-; exact I.
@@ -607,13 +609,16 @@ Qed.
    which the stored hash was made; a user stored without a password has none *)
 Theorem password_exact now h fp n u pw :
   alookup n (users (fst (run' (init_state H now) h fp))) = Some u ->
-  (verify (u_hash u) pw = true <-> u_hash u = hash pw).
+  (verify (u_hash u) pw = true <-> exists p, u_hash u = hash p /\ norm p = norm pw).
 Proof.
   intros L. assert (hash_origin (fst (run' (init_state H now) h fp))) as O.
   { apply run_hash_origin. intros k x X. discriminate. }
   destruct (O n u L) as [E|[p E]]; rewrite E.
-  - rewrite verify_empty. split; [discriminate|]. intros X. rewrite <- (verify_empty pw), X. now apply verify_hash.
-  - split; [intros V; apply verify_hash in V; now subst|]. intros X. rewrite X. now apply verify_hash.
+  - rewrite verify_empty. split; [discriminate|]. intros (p & X & _).
+    rewrite <- (verify_empty p), X. now apply verify_hash.
+  - split.
+    + intros V. exists p. split; [reflexivity|now apply verify_hash].
+    + intros (p' & X & Y). rewrite X. now apply verify_hash.
 Qed.
 
 (* ---------- boolean monitor ---------- *)
@@ -640,8 +645,8 @@ Qed.
 End Proofs.
 
 (* ---------- the symbolic instance evaluated by the correspondence check ---------- *)
-Lemma verify0_hash p p' : verify0 (hash0 p) p' = true <-> p = p'.
-Proof. cbn. apply String.eqb_eq. Qed.
+Lemma verify0_hash p p' : verify0 (hash0 p) p' = true <-> norm0 p = norm0 p'.
+Proof. unfold verify0, hash0. apply String.eqb_eq. Qed.
 Lemma verify0_empty p : verify0 empty0 p = false.
 Proof. reflexivity. Qed.
 
@@ -653,7 +658,7 @@ Proof.
   unfold spec_step. destruct (is_request o).
   - destruct rs as [|r [|r2 rs2]]; try discriminate. cbn [obs_of_model o_n o_rep o_hash List.length]. cbn [Z.of_nat Pos.of_succ_nat Z.eqb Pos.eqb negb andb].
     destruct (r_body r) as [| | |a|se|u|l] eqn:B; try reflexivity.
-    + destruct (step_assertion H0 hash0 verify0 empty0 verify0_hash verify0_empty s o fp s' [r] fp' r a I E (or_introl eq_refl) B) as (A1 & A2 & _).
+    + destruct (step_assertion H0 hash0 verify0 empty0 norm0 verify0_hash verify0_empty s o fp s' [r] fp' r a I E (or_introl eq_refl) B) as (A1 & A2 & _).
       assert (auth_okb verify0 s o a = true) as -> by (eapply authenticated_okb; first [exact A1 | exact verify0_hash | exact verify0_empty]).
       assert (registered_okb s o a = true) as -> by (eapply registered_okb_of; first [exact A2 | exact verify0_hash | exact verify0_empty]).
       reflexivity.
@@ -679,7 +684,7 @@ Definition ex_prof : profile := mkp "alice@example.com" "Alice" "A" "Al" "" ["us
 Definition ex_md1 := mkmd "https://sp1/metadata" ["https://sp1/acs"].
 Definition ex_md1b := mkmd "https://sp1/metadata" ["https://sp1/acs-b"].
 Definition ex_setup : list op :=
-  [PutUser "alice" (Some "pw1") ex_prof; PutService "a" ex_md1; PutShortcut "x" "https://sp1/metadata"].
+  [PutUser "alice" (Some "pw1") ex_prof; PutService "a" (MdSingle ex_md1); PutShortcut "x" "https://sp1/metadata"].
 
 Definition has_assertion (rs : list (reply H0)) : bool :=
   existsb (fun r => match r_body r with BAssertion _ => true | _ => false end) rs.
@@ -707,8 +712,35 @@ Proof. repeat split; vm_compute; reflexivity. Qed.
    unregisters the other although it is still stored; a restart re-registers it,
    so inserting Restart changes a later reply. *)
 Definition k3_history (restart : bool) : list op :=
-  [PutUser "alice" (Some "pw1") ex_prof; Login (Password "alice" "pw1"); PutService "a" ex_md1; PutService "b" ex_md1b;
+  [PutUser "alice" (Some "pw1") ex_prof; Login (Password "alice" "pw1"); PutService "a" (MdSingle ex_md1); PutService "b" (MdSingle ex_md1b);
    DelService "a"] ++ (if restart then [Restart] else []) ++ [Sso (mkrq "https://sp1/metadata" "") (Cookie "S0")].
 Example duplicate_entity_refuted :
   has_assertion (last_reply (k3_history false) []) = false /\ has_assertion (last_reply (k3_history true) []) = true.
 Proof. split; vm_compute; reflexivity. Qed.
+
+(* an aggregate registers its FIRST entity that has an SPSSODescriptor, nothing else *)
+Definition ex_md2 := mkmd "https://sp2/metadata" ["https://sp2/acs"].
+Definition ex_idp := mkmd "https://idp-only/metadata" [].
+Definition agg_history (issuer : string) : list op :=
+  [PutUser "alice" (Some "pw1") ex_prof; Login (Password "alice" "pw1");
+   PutService "a" (MdAggregate [(ex_idp, false); (ex_md1, true); (ex_md2, true)]);
+   Sso (mkrq issuer "") (Cookie "S0")].
+Example aggregate_registers_first_sp :
+  has_assertion (last_reply (agg_history "https://sp1/metadata") []) = true /\
+  has_assertion (last_reply (agg_history "https://sp2/metadata") []) = false /\
+  has_assertion (last_reply (agg_history "https://idp-only/metadata") []) = false.
+Proof. repeat split; vm_compute; reflexivity. Qed.
+
+(* a password of more than 72 bytes is refused and changes nothing; 72 bytes are
+   accepted, and then (bcrypt) every longer password with that prefix verifies *)
+Definition p72 : string := "012345678901234567890123456789012345678901234567890123456789012345678901".
+Example password_length_boundary :
+  let h1 := [PutUser "alice" (Some "pw1") ex_prof; PutService "a" (MdSingle ex_md1); PutUser "alice" (Some (p72 +++ "x")) ex_prof] in
+  let h2 := [PutUser "alice" (Some p72) ex_prof; PutService "a" (MdSingle ex_md1)] in
+  has_assertion (last_reply (h1 ++ [Sso (mkrq "https://sp1/metadata" "") (Password "alice" "pw1")]) []) = true /\
+  has_assertion (last_reply (h1 ++ [Sso (mkrq "https://sp1/metadata" "") (Password "alice" (p72 +++ "x"))]) []) = false /\
+  has_assertion (last_reply (h1 ++ [Sso (mkrq "https://sp1/metadata" "") (Password "alice" p72)]) []) = false /\
+  has_assertion (last_reply (h2 ++ [Sso (mkrq "https://sp1/metadata" "") (Password "alice" p72)]) []) = true /\
+  has_assertion (last_reply (h2 ++ [Sso (mkrq "https://sp1/metadata" "") (Password "alice" (p72 +++ "tail"))]) []) = true /\
+  has_assertion (last_reply (h2 ++ [Sso (mkrq "https://sp1/metadata" "") (Password "alice" (take 71 p72))]) []) = false.
+Proof. repeat split; vm_compute; reflexivity. Qed.
